@@ -179,6 +179,8 @@ class HBatch(BatchBase):
 
     def _flush(self):
         env = self.env
+        if env.on_step is not None:
+            env.on_step()
         env.events.append(["body", self.kind, self.no])
         env.flushes.append([self.kind, self.no, [canon(i.arg) for i in self.items]])
         env.log.append(["flush", self.kind, self.no, sorted(repr(i.arg) for i in self.items)])
@@ -253,6 +255,7 @@ class Env(object):
         self.delivered_multi = 0
         self.delivered_caught = 0
         self.ncands = 0
+        self.on_step = None    # C16: harness-owned thread schedule (turnstile) hooks in here
         self.nctx_entered = 0
         self.ctx_span_flush = 0       # flushes during which >= 2 tasks were inside a recording context
         self.ov_span_flush = 0        # flushes during which >= 2 tasks held an override of the same value
@@ -408,6 +411,10 @@ def build(env, s, futs, me, fresh):
     if tag == "ditem":
         it = DebugBatchItem(s[1], s[2])
         env.keep.append(it)
+        for other in it.batch.items:
+            if not any(other is mine for mine in env.keep):
+                env.v("C16.debugbatch", "a DebugBatchItem joined a batch that holds an item of another computation/thread")
+                break
         futs.append(it)
         return it
     if tag == "const":
@@ -484,6 +491,8 @@ def exec_block(env, rec, me, body):
     for st in body:
         op = st["op"]
         env.log.append(["step", tid, op])
+        if env.on_step is not None:
+            env.on_step()
         if env.check_c06:
             env.check_ctx_at_step(tid)
         if scheduler.get_active_task() is not me:
@@ -653,6 +662,14 @@ def wrapper_task(env, t, rec):
 # running one case
 # ---------------------------------------------------------------------------------
 
+class _Null(object):
+    def __enter__(self):
+        return self
+
+    def __exit__(self, *a):
+        return False
+
+
 class FakeClock(object):
     """harness clock for asynq's utime(): advances by a fixed amount per reading"""
 
@@ -667,7 +684,7 @@ class FakeClock(object):
         return self.now
 
 
-def run_program(prog, check_c04=False, check_c06=False, reset=True, options=None, clock=None):
+def run_program(prog, check_c04=False, check_c06=False, reset=True, options=None, clock=None, capture=True, on_step=None):
     """Runs the program on asynq. Returns env; env.outcome is ["ok", v] | ["exc", key] | ["escaped", type, text]."""
     if reset:
         reset_process_state()
@@ -675,6 +692,7 @@ def run_program(prog, check_c04=False, check_c06=False, reset=True, options=None
         for k, v in options.items():
             setattr(_debug.options, k, v)
     env = Env(prog)
+    env.on_step = on_step
     env.check_c04 = check_c04
     env.check_c06 = check_c06
     root = prog["root"]
@@ -747,7 +765,7 @@ def run_program(prog, check_c04=False, check_c06=False, reset=True, options=None
     if clock is not None:
         asynq.scheduler.utime = clock
     try:
-        with sink.capture_print():
+        with (sink.capture_print() if capture else _Null()):
             if conv == "call":
                 val = run_task(env, root)
             elif conv == "wrapper":
